@@ -811,6 +811,9 @@ struct Real {
     tiny: bool,
     /// `inner_node_capacity = 0`, documented as "no limit"
     cap0: bool,
+    /// `make_node` was called on one of the paths on which the wrapper in /repo does not take
+    /// `hi`/`lo` over: node balance failures of this case carry the signature of that defect
+    make_node_path: bool,
     ended: bool,
     file_no: u64,
 }
@@ -827,10 +830,13 @@ fn complement_tree(s: &str) -> String {
 
 impl Real {
     fn new(ld: std::sync::Arc<Loaded>) -> Self {
-        Real { ld, kind: 0, cm: None, mrefs: 0, rs: None, h: BTreeMap::new(), substs: BTreeMap::new(), tiny: false, cap0: false, ended: false, file_no: 0 }
+        Real { ld, kind: 0, cm: None, mrefs: 0, rs: None, h: BTreeMap::new(), substs: BTreeMap::new(), tiny: false, cap0: false, make_node_path: false, ended: false, file_no: 0 }
     }
     fn api(&self) -> &Api {
         &self.ld.apis[self.kind]
+    }
+    fn balance_sig(&self, sig: &'static str) -> &'static str {
+        if self.make_node_path { "capi-make-node-leak" } else { sig }
     }
     fn own(&self) -> usize {
         self.h.values().map(|e| e.cnt).sum()
@@ -963,6 +969,7 @@ impl Real {
         self.ended = false;
         self.tiny = false;
         self.cap0 = false;
+        self.make_node_path = false;
     }
 
     /// bind `name` to the C result `c` (owned if valid) and the mirror result `r`
@@ -1054,7 +1061,7 @@ impl Real {
                 rep.count(if nc == nr { "nn_equal_mirror" } else { "nn_differs_mirror" });
                 if nc != nr {
                     // same calls, same algorithms, one worker thread each: the stores agree
-                    rep.fail("capi-node-count-differs", &format!("after `{line}` the C side manager holds {nc} inner nodes, the Rust side manager {nr}"));
+                    rep.fail(self.balance_sig("capi-node-count-differs"), &format!("after `{line}` the C side manager holds {nc} inner nodes, the Rust side manager {nr}"));
                 }
             }
             let _ = nn_before;
@@ -1475,7 +1482,7 @@ impl Real {
                 let r = self.rs.as_mut().unwrap().gc();
                 let e = self.expected_nodes();
                 if c != e {
-                    rep.fail("capi-node-balance", &format!("after gc the C side manager holds {c} inner nodes; the C-owned references (o{}) and substitution objects reach {e}", self.own()));
+                    rep.fail(self.balance_sig("capi-node-balance"), &format!("after gc the C side manager holds {c} inner nodes; the C-owned references (o{}) and substitution objects reach {e}", self.own()));
                 }
                 if r != e {
                     rep.fail("capi-mirror-node-balance", &format!("after gc the Rust side manager holds {r} inner nodes; expected {e}"));
@@ -1568,7 +1575,7 @@ impl Real {
                 let r = self.rs.as_mut().unwrap().gc();
                 let e = self.expected_nodes();
                 if c != e {
-                    rep.fail("capi-node-balance", &format!("after releasing every C-owned reference and gc the manager holds {c} inner nodes, expected {e}"));
+                    rep.fail(self.balance_sig("capi-node-balance"), &format!("after releasing every C-owned reference and gc the manager holds {c} inner nodes, expected {e}"));
                 }
                 if r != e {
                     rep.fail("capi-mirror-node-balance", &format!("after dropping everything and gc the Rust side manager holds {r} inner nodes, expected {e}"));
@@ -1713,6 +1720,10 @@ impl Real {
         if rop == "make_node" {
             // `oxidd_zbdd_make_node` takes ownership of `hi` and `lo` (documented)
             rep.count(if any_invalid { "make_node_invalid_arg" } else { "make_node_valid" });
+            if (!cs[0].ok() && (cs[1].ok() || cs[2].ok())) || (cs[0].ok() && !cs[1].ok() && cs[2].ok()) {
+                self.make_node_path = true;
+                rep.count("make_node_defective_path");
+            }
             self.release(args[1]);
             if self.h.contains_key(args[2]) {
                 self.release(args[2]);
